@@ -46,6 +46,10 @@ def large_tie_graphs(r, tier):
     n, E = shuffle_graph(r, 128, hypercube(7)); out.append((n, E, "Q7-shuffled"))
     out.append((72, bipartite(2, 70), "K2,70"))
     n = 100; E = gnp(r, n, 0.05); out.append((n, E, "gnp100-unit"))
+    # long tied shortest paths (more than 32 / 64 vertices on a path): ladders, thin grids, a long tail ending in a square
+    out.append((90, grid(2, 45), "ladder2x45"))
+    out.append((120, grid(3, 40), "grid3x40"))
+    t = 70; out.append((t + 4, [(i, i + 1) for i in range(t)] + [(t, t + 1), (t, t + 2), (t + 1, t + 3), (t + 2, t + 3)], "tail70+square"))
     if tier != "quick":
         out.append((256, hypercube(8), "Q8"))
         n, E = shuffle_graph(r, 144, torus(12, 12)); out.append((n, E, "torus12x12-shuffled"))
